@@ -2103,6 +2103,14 @@ impl Connection {
         self.spaces[SpaceId::Initial].dedup.insert(packet_number);
 
         self.process_decrypted_packet(now, remote, Some(packet_number), packet.into())?;
+        if self.state.is_closed() {
+            // The first packet carried the peer's CONNECTION_CLOSE: drain like any other closed
+            // connection instead of lingering without a timer
+            self.close_common();
+            if !self.state.is_drained() {
+                self.set_close_timer(now);
+            }
+        }
         if let Some(data) = remaining {
             self.handle_coalesced(now, remote, ecn, data);
         }
